@@ -532,8 +532,12 @@ class GlobalState:
                     if getattr(value, "__module__", None) != modname:
                         continue
                     for attr, v in sorted(vars(value).items(), key=lambda kv: kv[0]):
-                        if not attr.startswith("__") and isinstance(v, (list, dict, set)):
+                        if attr.startswith("__"):
+                            continue
+                        if isinstance(v, (list, dict, set)):
                             cls._walk((modname, f"{name}.{attr}"), v, snap, 0, set())
+                        elif v is None or isinstance(v, (str, bytes, int, float, bool, tuple, frozenset)):
+                            snap[(modname, f"{name}.{attr}")] = cls._token(v)  # plain data kept on the class itself
                     continue
                 if callable(value) and not isinstance(value, (list, dict, set)) and not cls._library_object(value):
                     continue
@@ -587,7 +591,10 @@ class GlobalState:
     @staticmethod
     def replaced(before, after):
         """Slots present in both snapshots whose value differs: [(module, global name, path...)]."""
-        return sorted((p for p, tok in after.items() if p in before and before[p] != tok), key=repr)
+        out = [p for p, tok in after.items() if p in before and before[p] != tok]
+        # a plain value that APPEARS directly on a module or class (not inside a container) is no cache fill either
+        out += [p for p, tok in after.items() if p not in before and len(p) == 2 and not tok.startswith("<")]
+        return sorted(out, key=repr)
 
 
 class WriteRecorder:
